@@ -944,3 +944,79 @@ def _split_first(it, st, args, ctx):
     first = Ptr(ptr.cell, ptr.path + (('i', 0),))
     rest = Ptr(ptr.cell, ptr.path + (('sub', 1, 0, True),))
     return mk_some(Agg('tuple', [first, rest]))
+
+
+# ---------------------------------------------------------------------------
+# ordering of values with derived Ord (lexicographic over fields; enums by discriminant, then payload),
+# sorting / deduplication of short vectors of such values
+
+
+def val_lt(a, b):
+    """a < b under derive(Ord): (strictly-less Bool)"""
+    from .interp import disc_term, _is_variant
+    if isinstance(a, Agg) and isinstance(b, Agg):
+        lt = z3.BoolVal(False)
+        for x, y in reversed(list(zip(a.fields, b.fields))):
+            lt = z3.Or(val_lt(x, y), z3.And(val_eq(x, y), lt))
+        return lt
+    if isinstance(a, EnumV) and isinstance(b, EnumV):
+        da, db = disc_term(a), disc_term(b)
+        same = z3.BoolVal(False)
+        for name in set(a.payloads) & set(b.payloads):
+            pa, pb = a.payloads[name], b.payloads[name]
+            if pa:
+                same = z3.Or(same, z3.And(_is_variant(a, name), val_lt(Agg('t', list(pa)), Agg('t', list(pb)))))
+        return z3.Or(z3.ULT(da, db), z3.And(da == db, same))
+    if isinstance(a, z3.ExprRef) and z3.is_bv(a):
+        return z3.ULT(a, b)
+    raise Unsupported('ordering of %r' % (a,))
+
+
+def _ite_value(c, a, b):
+    from .interp import ite_val
+    return ite_val(simp(c), a, b)
+
+
+@summary(r'^(core|std)::slice::<impl \[.*\]>::(sort|sort_unstable)$|^Vec::<.*>::(sort|sort_unstable)$')
+def _slice_sort(it, st, args, ctx):
+    ptr, s = seq_of(it, st, args[0])
+    xs = list(s.fields)
+    n = len(xs)
+    # odd-even transposition network: n rounds of compare-exchange, every element an ite over the inputs
+    for rnd in range(n):
+        for i in range(rnd % 2, n - 1, 2):
+            swap = val_lt(xs[i + 1], xs[i])
+            xs[i], xs[i + 1] = _ite_value(swap, xs[i + 1], xs[i]), _ite_value(swap, xs[i], xs[i + 1])
+    it.store(st, ptr, Agg(s.ty, xs))
+    return UNIT
+
+
+@summary(r'^Vec::<.*>::dedup$')
+def _vec_dedup(it, st, args, ctx):
+    ptr, s = seq_of(it, st, args[0])
+    xs = list(s.fields)
+    outs = []
+    work = [(st, [], 0)]
+    while work:
+        s2, kept, i = work.pop()
+        if i == len(xs):
+            it.store(s2, ptr, Agg(s.ty, kept))
+            outs.append((s2, Ret(UNIT)))
+            continue
+        if not kept:
+            work.append((s2, [xs[i]], i + 1))
+            continue
+        dup = simp(val_eq(kept[-1], xs[i]))
+        if not z3.is_false(dup) and it.feasible(s2, dup):
+            f = s2.fork()
+            f.assume(dup)
+            work.append((f, list(kept), i + 1))
+        if not z3.is_true(dup) and it.feasible(s2, z3.Not(dup)):
+            s2.assume(z3.Not(dup))
+            work.append((s2, kept + [xs[i]], i + 1))
+    return outs
+
+
+@summary(r'^<.* as (tap::)?Pipe>::pipe::<')
+def _tap_pipe(it, st, args, ctx):
+    return it.call_closure(st, args[1], [args[0]], ctx)
